@@ -147,6 +147,10 @@ def variants():
     v.append(("followed_by_any", dict(group=5, times=1, loop=False, optional=False, npred=3, mix="cic")))
     v.append(("not_followed_by_any", dict(group=6, times=1, npred=2, mix="ic")))
     v.append(("not_followed_by_any", dict(group=6, times=1, npred=3, mix="icc")))
+    # every method with a repetition count above one
+    v.append(("not_followed_by", dict(group=4, times=2)))
+    v.append(("not_followed_by_any", dict(group=6, times=3, npred=2)))
+    v.append(("followed_by", dict(group=3, times=2, loop=True, optional=False)))
     v.append(("precondition", dict()))
     v.append(("haltcondition", dict()))
     return v
